@@ -52,6 +52,7 @@ type Task struct {
 	fireSelf func()
 	nchild   int
 	nevent   int
+	nfresh   int
 	obj      int64 // address used for spawn/join race annotations
 	Parent   *Task
 }
@@ -241,6 +242,17 @@ func (w *World) CurPath() uint64 {
 		return 0
 	}
 	return w.cur.Path
+}
+
+// FreshPath returns an identity for an object the running task creates (the
+// k-th such call of a task yields the same value in every execution in which
+// the task behaves the same).
+func (w *World) FreshPath() uint64 {
+	if w.cur == nil {
+		return mix(0x7777, uint64(len(w.tasks)))
+	}
+	w.cur.nfresh++
+	return mix(w.cur.Path, 0x5150+uint64(w.cur.nfresh)<<8)
 }
 
 func (w *World) Tasks() []*Task { return w.tasks }
